@@ -2,6 +2,7 @@ package brk
 
 import (
 	"fmt"
+	"strings"
 	"testing"
 	"time"
 
@@ -30,6 +31,11 @@ func expandC13(_ *testing.T, seed uint64, tier string) []*core.Plan {
 	p.SetKnob("gate", r.Pick(0, 1, 1))
 	p.SetKnob("wills", r.Pick(0, 1))
 	p.SetKnob("incumbent", r.Intn(3)) // 0 idle, 1 mid inbound QoS 2 handshake, 2 unacknowledged outbound message
+	if r.Chance(1, 8) {
+		// the incumbent's peer stops reading and its socket buffer is small: the
+		// broker's sends towards it block ("old connection blocked in a send")
+		p.SetKnob("stall", 1)
+	}
 	p.Yield = r.Pick(0, 0, 4, 16)
 	tag := 0
 	for i := 2; i <= n; i++ {
@@ -111,6 +117,18 @@ func runC13(t *testing.T, p *core.Plan) *core.Result {
 			src.Send(pb)
 			w.Settle()
 		}
+		if p.Knob("stall", 0) == 1 {
+			inc.Link.B2A.Cap = 48
+			inc.Stalled = true
+			for i := 0; i < 6; i++ {
+				pb := packet.NewPublish()
+				pb.ID = src.NextID()
+				pb.Message = packet.Message{Topic: "t/fill", QOS: 1, Payload: MsgPayload(3000+i, 40)}
+				src.Send(pb)
+			}
+			w.Settle()
+			res.Count("stalled_incumbents", 1)
+		}
 		// the storm
 		next := 0
 		for steps := 0; steps < 30000; steps++ {
@@ -130,7 +148,7 @@ func runC13(t *testing.T, p *core.Plan) *core.Result {
 				if n := pr.Link.A2B.InFlight(); n > 0 && !pr.Link.A2B.Broken() {
 					nets = append(nets, func() { w.deliverToBroker(pr, w.chunk(n)) })
 				}
-				if n := pr.Link.B2A.InFlight(); n > 0 && !pr.Link.B2A.Broken() {
+				if n := pr.Link.B2A.InFlight(); n > 0 && !pr.Link.B2A.Broken() && !pr.Stalled {
 					nets = append(nets, func() { w.deliverToPeer(pr, w.chunk(n)) })
 				}
 				if pr.Link.A2B.FinPending() {
@@ -188,7 +206,20 @@ func runC13(t *testing.T, p *core.Plan) *core.Result {
 			pr.AckMode = 0
 		}
 		w.Settle()
-		judgeC13(w, order, scriptDied, src, allUnclean, wills, res)
+		stalled := false
+		for _, st := range core.Stacks() {
+			if strings.Contains(st, "MemoryBackend).Setup") && strings.Contains(st, "BaseConn).Close") {
+				// the take-over waits for the send mutex of a connection whose send is
+				// blocked on a full socket buffer - while holding both backend mutexes
+				stalled = true
+				res.Violate("C13", "C13.stall-behind-blocked-send", "Setup<-Client.Close<-BaseConn.Close",
+					fmt.Sprintf("a take-over of a client whose peer has stopped reading is still stuck %v after the kill timeout: MemoryBackend.Setup -> Client.Close -> BaseConn.Close waits for the send mutex held by a Send that is blocked on the full socket buffer; Setup holds the setup and global mutexes, so every backend call of every client stalls (%s)", cfg.KillTimeout+time.Second, core.TopFrames(st, 5)))
+				break
+			}
+		}
+		if !stalled {
+			judgeC13(w, order, scriptDied, src, allUnclean, wills, res)
+		}
 		if leaks := w.Teardown(); len(leaks) > 0 {
 			res.Violate("C13", "C13.leak", leaks[0], fmt.Sprintf("%d goroutines still alive after teardown: %v", len(leaks), leaks))
 		}
@@ -320,7 +351,11 @@ func judgeC13(w *World, order []*Peer, scriptDied map[*Peer]bool, src *Peer, all
 	}
 	// (d) session hand-over without loss or new duplicates (persistent contenders only)
 	delivered, required := 0, 0
-	if allUnclean && last != nil && last.Connected() {
+	stallMode := false
+	for _, pr := range order {
+		stallMode = stallMode || pr.Stalled
+	}
+	if allUnclean && last != nil && last.Connected() && !stallMode {
 		got := map[int]int{}
 		nonDup := map[int]int{}
 		for _, pr := range order {
